@@ -247,6 +247,9 @@ func TestC47(t *testing.T) {
 			"putFresh": func(rt *rapid.T) {
 				// precondition (every caller): the element is not in the set (CREATE USER checks
 				// for the user first; the editors check the primary key; PutUser removes first)
+				if len(m.els) > 40 { // 54 possible elements: keep the filter below cheap
+					rt.Skip("nearly full")
+				}
 				e := elemGen.Filter(func(e elem) bool { return !m.has(e) }).Draw(rt, "e")
 				log("Put%v", e)
 				p := e
